@@ -181,18 +181,25 @@ def impl(case):
         import networkx as nx
         nzv = res['base']['nz']
         if len(nzv) >= 2:
-            a, b = tuple(nzv[0]), tuple(nzv[-1])
-            costs = []
-            for key, shift in (('base', (0, 0, 0)), ('trans', tuple(case['shift8']))):
-                F = np.array(res[key]['fe'])
-                G = free_energy_graph(F, max_energy_threshold=1e7, diagonal=True)
-                s = tuple((a[k] + shift[k]) % 8 for k in range(3))
-                t = tuple((b[k] + shift[k]) % 8 for k in range(3))
-                try:
-                    costs.append(float(optimal_path(G, start=s, stop=t).total_energy))
-                except nx.NetworkXNoPath:
-                    costs.append(None)
-            res['path_costs'] = costs
+            # every pair among (up to) seven visited voxels spread over the list: the translated copy moves them through faces, edges and corners of the cell
+            pick = [tuple(nzv[i]) for i in sorted({round(k * (len(nzv) - 1) / 6) for k in range(7)})]
+            pairs = [(pick[i], pick[j]) for i in range(len(pick)) for j in range(i + 1, len(pick))]
+            graphs = {}
+            for key in ('base', 'trans'):
+                graphs[key] = free_energy_graph(np.array(res[key]['fe']), max_energy_threshold=1e7, diagonal=True)
+            allc = []
+            for a, b in pairs:
+                costs = []
+                for key, shift in (('base', (0, 0, 0)), ('trans', tuple(case['shift8']))):
+                    s = tuple((a[k] + shift[k]) % 8 for k in range(3))
+                    t = tuple((b[k] + shift[k]) % 8 for k in range(3))
+                    try:
+                        costs.append(float(optimal_path(graphs[key], start=s, stop=t).total_energy))
+                    except nx.NetworkXNoPath:
+                        costs.append(None)
+                allc.append(costs)
+            res['path_costs_all'] = allc
+            res['path_costs'] = allc[0]
     return res
 
 
@@ -272,10 +279,10 @@ def oracle(case, out):
                 f = np.roll(f, case['shift8'], axis=(0, 1, 2))
             cmp(kind, 'volume', v.tolist(), o.get('vol'))
             cmp(kind, 'free_energy', f.tolist(), o.get('fe'), 1e-12)
-    if 'path_costs' in out:
-        c0, c1 = out['path_costs']
+    for c0, c1 in out.get('path_costs_all', [out['path_costs']] if 'path_costs' in out else []):
         if (c0 is None) != (c1 is None) or (c0 is not None and abs(c0 - c1) > 1e-9 * max(1.0, abs(c0))):
-            fs.append(('invariance/trans:path-cost', f'optimal path cost changes under translation: {c0} vs {c1}'))
+            fs.append(('invariance/trans:path-cost', f'optimal path cost changes under translation by {case["shift8"]}/8: {c0} vs {c1}'))
+            break
     return fs
 
 
